@@ -36,8 +36,9 @@ ID,m,OUT=sys.argv[1:4]
 p='/verif/harness/src/props/mod.rs'
 s=open(p).read()
 if f'pub mod {m};' not in s:
-    mods=sorted(set(re.findall(r'pub mod (c\d+);',s))|{m})
-    s=re.sub(r'(pub mod c\d+;\n)+', ''.join(f'pub mod {x};\n' for x in mods), s, count=1)
+    mods=sorted(set(re.findall(r'^pub mod (\w+);\n',s,flags=re.M))|{m})
+    s=re.sub(r'^pub mod \w+;\n','',s,flags=re.M)
+    s=s.replace('use serde_json::Value;\n','use serde_json::Value;\n\n'+''.join(f'pub mod {x};\n' for x in mods),1)
     s=s.replace('        _ => machinery_failure(&format!("no check for property {}", id)),', f'        "{ID}" => {m}::run(run),\n        _ => machinery_failure(&format!("no check for property {{}}", id)),')
     s=s.replace('        _ => machinery_failure(&format!("no replay for property {}", id)),', f'        "{ID}" => {m}::replay(case, run),\n        _ => machinery_failure(&format!("no replay for property {{}}", id)),')
     src=open(f'/verif/harness/src/props/{m}.rs').read()
